@@ -235,7 +235,8 @@ def simplexVertices (I : FunI F α) (params : PList α) : List Nat → F → Lis
       | .error e => .error e
       | .ok (fn, y) => simplexVertices I params r fn (vs ++ [v]) (ys ++ [y])
 
-/-- `DownhillSimplexMethod::doInit` (DownhillSimplexMethod.cpp:33-61) -/
+/-- `DownhillSimplexMethod::doInit` (DownhillSimplexMethod.cpp:33-64), repaired: the ranking of an
+earlier run is forgotten (`iLowest_ = 0`: the starting point is vertex 0) -/
 def simplexDoInit (I : FunI F α) (s : St F (Simplex α) α) (_params : PList α) : Except (Exc × F) (St F (Simplex α) α) :=
   let params := s.core.params
   let nDim := params.length
@@ -250,7 +251,7 @@ def simplexDoInit (I : FunI F α) (s : St F (Simplex α) α) (_params : PList α
       | .error e => .error (e, fn)
       | .ok ps =>
         .ok { s with fn := fn, core := { s.core with nbEval := nDim + 1 },
-                     ext := { s.ext with simplex := simplex, y := y0 :: ys, pSum := ps } }
+                     ext := { s.ext with simplex := simplex, y := y0 :: ys, pSum := ps, iLowest := 0 } }
 
 /-- `DownhillSimplexMethod::tryExtrapolation(fac)` (DownhillSimplexMethod.cpp:179-209) -/
 def tryExtrapolation (I : FunI F α) (s : St F (Simplex α) α) (fac : α) : Except (Exc × F) (St F (Simplex α) α × α) :=
